@@ -107,3 +107,44 @@ Print Assumptions C10_one_time_key_partial.
 Print Assumptions C10_candidate_is_spend_key_partial.
 Print Assumptions C10_check_exact.
 Print Assumptions C10_one_time_key_recognised_partial.
+
+(* ==== added by the model-mutation audit (notes/MODEL_MUTANTS_B.md, Proofs/AuditC10.v) ============================= *)
+From MRS Require Import Proofs.AuditC10.
+
+(* BOTH constructors apply the cofactor to the point: KeyGenerator::from_key(view a, spend S, tx key B) and
+   KeyGenerator::from_random(view key B, S, tx secret a) carry rv = 8*(a*B) for EVERY valid point B (honest or not).  The theorems
+   above state this for key_derive only, and for the two constructors only at honest keys B = r*G, where (8a mod l)*B = 8*(a*B) *)
+Theorem C10_generators_derivation_partial : forall (E : EdOps) (LW : EdLaws E) a S B, valid B ->
+  from_key a S (compress B) = Ok (S, compress (smul 8 (smul a B))) /\
+  from_random (compress B) S a = Ok (S, compress (smul 8 (smul a B))).
+Proof. intros E LW. exact generators_derive. Qed.
+
+(* ... so both clear a small-order component T of the key they are given: the generator of B' + T is the generator of B' *)
+Theorem C10_generators_clear_torsion_partial : forall (E : EdOps) (LW : EdLaws E) a S B' T,
+  valid B' -> valid T -> smul 8 T = pzero ->
+  from_key a S (compress (padd B' T)) = Ok (S, compress (smul (8 * a) B')) /\
+  from_random (compress (padd B' T)) S a = Ok (S, compress (smul (8 * a) B')) /\
+  from_key a S (compress (padd B' T)) = from_key a S (compress B').
+Proof. intros E LW. exact generators_clear_torsion. Qed.
+
+(* ... for every byte string that PublicKey::from_slice accepts; never an error or a panic *)
+Theorem C10_generators_accepted_partial : forall (E : EdOps) (LW : EdLaws E) a S k, pk_from_slice k = Ok k ->
+  exists B, valid B /\ compress B = k /\
+    from_key a S k = Ok (S, compress (smul 8 (smul a B))) /\ from_random k S a = Ok (S, compress (smul 8 (smul a B))).
+Proof. intros E LW. exact generators_accepted. Qed.
+
+Check C10_generators_derivation_partial : forall (E : EdOps) (LW : EdLaws E) a S B, valid B ->
+  from_key a S (compress B) = Ok (S, compress (smul 8 (smul a B))) /\
+  from_random (compress B) S a = Ok (S, compress (smul 8 (smul a B))).
+Check C10_generators_clear_torsion_partial : forall (E : EdOps) (LW : EdLaws E) a S B' T,
+  valid B' -> valid T -> smul 8 T = pzero ->
+  from_key a S (compress (padd B' T)) = Ok (S, compress (smul (8 * a) B')) /\
+  from_random (compress (padd B' T)) S a = Ok (S, compress (smul (8 * a) B')) /\
+  from_key a S (compress (padd B' T)) = from_key a S (compress B').
+Check C10_generators_accepted_partial : forall (E : EdOps) (LW : EdLaws E) a S k, pk_from_slice k = Ok k ->
+  exists B, valid B /\ compress B = k /\
+    from_key a S k = Ok (S, compress (smul 8 (smul a B))) /\ from_random k S a = Ok (S, compress (smul 8 (smul a B))).
+
+Print Assumptions C10_generators_derivation_partial.
+Print Assumptions C10_generators_clear_torsion_partial.
+Print Assumptions C10_generators_accepted_partial.
